@@ -1700,6 +1700,15 @@ def _loc_scenarios():
             return doc, _at(doc, 'session')
         add('loaded-from-%s/unresolved-linking-section' % backend, loaded_linker)
 
+    def loaded_rdf():
+        doc = _loc_base()
+        _loc_subtree(doc)
+        docs = _loc_reload(doc, 'RDF')
+        if not isinstance(docs, list) or len(docs) != 1:
+            raise AssertionError('harness bug: RDF reload gave %r' % (docs,))
+        return docs[0], _at(docs[0], 'template', 'settings')
+    add('loaded-from-RDF', loaded_rdf)
+
     # --- the Section carries other markers -----------------------------------------------------------------
     def with_repository():
         doc = _loc_base()
@@ -1857,7 +1866,7 @@ def run_invalid_locations(tier, seed):
              '(terminology pre-loaded); Section.merge copies; clones (root, child, children=False, of a link copy, of a '
              'linking Section, Document.clone); moved in from another document by append / insert / extend / parent '
              'setter; moved within; create_section; Property moved in / cloned; read from XML / JSON / YAML (plain, '
-             'unresolved link, link resolved after loading); Section with repository / cardinalities / warnings / no '
+             'unresolved link, link resolved after loading) / RDF; Section with repository / cardinalities / warnings / no '
              'name} x kind of error {type None, type "", empty Section / Property name, duplicate sibling Section '
              '(name, type), duplicate sibling Property name, duplicate id of the Section / of its Property in the same / '
              'another Section} x what follows the edit {nothing, finalize(), clean(), clean()+finalize(), '
